@@ -57,3 +57,10 @@ Definition h_fetch (h : handle) (id from until now : Z) : fetch_res :=
 Definition h_dfetch (h : handle) (id from until now : Z) : option fetch_res :=
   if hd_hdr_on_disk h then Some (fetch_from_archive (hd_disk h) id from until now) else None.
 Definition h_raw (h : handle) (id : Z) : option (list point) := raw_points (hd_arcs h) id.
+
+(** the header of an open handle, as [Whisper.Header] returns it *)
+Definition h_header (h : handle) : option header :=
+  match new_header (hd_method h) (hd_xff h) (layout_ainfos (map (fun a => (a_step a, a_n a)) (hd_arcs h))) with
+  | Some hd => Some (mkHeader (h_method hd) (hd_maxret h) (h_xff hd) (h_count hd) (h_arcs hd))
+  | None => None
+  end.
